@@ -233,10 +233,7 @@ def judge(res, tree, faults, outstate, order, feat, rc, root_factory, inpath="ab
         if after.get(p) is None:
             res.violation("output-file-missing|" + tag, "tree %r faults %r order %s: %r missing" % (
                 tree, faults, order, p), rc)
-    for f in faults:
-        p = os.path.join("out", f)
-        if faults[f].startswith("undecodable") and after.get(p) not in (None, b""):
-            res.violation("failed-file-left-partial-output", "%r holds %r" % (p, after.get(p)[:40]), rc)
+    # a failed file's own output path may be absent, empty or partial (weaker reading of "skipped")
     # healthy outputs equal the run in which the faulty files do not exist
     if faults and healthy:
         root2 = root_factory()
